@@ -77,6 +77,17 @@ PROPS = {
                        "equality of values across builds; format template expressions are parsed after the rewrite (noted).",
         "assumptions": ["the parser never stores an import inside CallDef.funcref / CopyDef.selector (Value from a selector)"],
     },
+    "C08": {
+        "module": "c08",
+        "explanation": "R22: provenance over MIR (every formatting argument of the env/flags/exec converters that derives from a "
+                       "Val::Str payload does so only through a shell-escape helper, helpers treated as the only declassifiers) plus "
+                       "syntax-level quoting context of each helper call and exact replacement tables of the helpers (R22h: backslash "
+                       "first). R23: no success return inside any per-field/per-item loop. R24 (exhaustive over Val variants, "
+                       "per-variant path analysis): the env converter never writes NAME= without value and newline; separators of all "
+                       "writes. Not decided: what /bin/sh reconstructs (POSIX quoting rules are the trusted base); field names are "
+                       "written raw (the property speaks of values).",
+        "assumptions": ["POSIX: inside '..' only ' is special and '\\'' yields it; inside \"..\" exactly \\ \" $ ` are special"],
+    },
 }
 
 
